@@ -129,7 +129,16 @@ pub fn strategy() -> BoxedStrategy<Case> {
 }
 
 fn encode<T: Pixel>(c: &YuvConfig, px: &[[f32; 3]], w: usize, h: usize, by_value: bool) -> Result<(Vec<[u16; 3]>, usize, usize, YuvConfig), String> {
-    let rgb = Rgb::new(px.to_vec(), w, h, c.transfer_characteristics, c.color_primaries).map_err(|e| format!("Rgb::new: {e:?}"))?;
+    // the Rgb object is produced either directly or by painting over an in-gamut grey canvas through
+    // data_mut(): the encoding is a function of the pixel data only
+    let paint = px.len() > 1 && (px[0][0].to_bits() ^ px[px.len() - 1][2].to_bits()) % 3 == 0;
+    let rgb = if paint {
+        let mut r = Rgb::new(vec![[0.5f32; 3]; px.len()], w, h, c.transfer_characteristics, c.color_primaries).map_err(|e| format!("Rgb::new: {e:?}"))?;
+        r.data_mut().copy_from_slice(px);
+        r
+    } else {
+        Rgb::new(px.to_vec(), w, h, c.transfer_characteristics, c.color_primaries).map_err(|e| format!("Rgb::new: {e:?}"))?
+    };
     let r = if by_value { Yuv::<T>::try_from((rgb, *c)) } else { Yuv::<T>::try_from((&rgb, *c)) };
     let yuv = r.map_err(|e| format!("encode failed: {e:?}"))?;
     Ok((codes444(&yuv), yuv.width(), yuv.height(), yuv.config()))
@@ -192,6 +201,14 @@ pub fn check(case: &Case, st: &mut Stats) -> Result<(), Violation> {
                         Err(_) => false,
                     }
                 };
+                if !bad(*p) {
+                    return Err(fail(
+                        format!("pixel #{i} {:?} plane {}: code {} but ideal {:.6} only inside this {}x{} image (the pixel alone encodes correctly; the Rgb object was {}); cfg {}", p, j, codes[i][j], want[j], case.w, case.h, "possibly painted through data_mut()", cfg_json(c)),
+                        &px,
+                        case.w,
+                        case.h,
+                    ));
+                }
                 let small = minimize_px(*p, -0.5, 1.5, bad);
                 if small != *p {
                     return Err(fail(
@@ -333,4 +350,4 @@ pub fn replay(v: &Value) -> Result<(), String> {
     check(&case, &mut Stats::new()).map_err(|v| v.message)
 }
 
-pub const RULE: &str = "cases = (matrix in 7 standard, range, depth 8..16, storage, by-ref/by-value, w x h image (1..32 x 1..8) of RGB pixels in [-0.5,1.5]^3 from 7 strata: uniform cube, in-gamut cube, near-achromatic, 5^3 lattice, near-tie pixels (ideal code fractional part 0.5+-1e-7..1e-2, built through the oracle decoder and re-evaluated from the actual f32 values), clamp ends, full-range chroma -0.5) generated by proptest, plus an enumerated RGB lattice per config; every plane sample compared with the f64 H.273 ideal: |code - clamp(ideal)| <= 0.5 + 1e-6*2^n; output config/dims compared with the request; non-trivial = image with at least one plane ideal strictly inside (0, 2^n-1); distinct = by hash of (config, pixel bits)";
+pub const RULE: &str = "cases = (matrix in 7 standard, range, depth 8..16, storage, by-ref/by-value, w x h image (1..32 x 1..8) of RGB pixels in [-0.5,1.5]^3 from 7 strata: uniform cube, in-gamut cube, near-achromatic, 5^3 lattice, near-tie pixels (ideal code fractional part 0.5+-1e-7..1e-2, built through the oracle decoder and re-evaluated from the actual f32 values), clamp ends, full-range chroma -0.5) generated by proptest, plus an enumerated RGB lattice per config; a third of the Rgb objects are produced by painting the pixels over a grey canvas through data_mut(); every plane sample compared with the f64 H.273 ideal: |code - clamp(ideal)| <= 0.5 + 1e-6*2^n; output config/dims compared with the request; non-trivial = image with at least one plane ideal strictly inside (0, 2^n-1); distinct = by hash of (config, pixel bits)";
